@@ -30,7 +30,9 @@ Lemma entry_bounds nl off r : wf_rec nl r = true -> 0 <= off ->
   let e := entry nl off r in
   let n := zlen (render_rec nl r) in
   0 <= r_len e <= n /\ off + 1 <= r_start e /\ r_start e + 1 <= off + n /\
-  0 <= r_bases e <= n /\ 0 <= r_bytes e <= n.
+  0 <= r_bases e <= n /\ 0 <= r_bytes e <= n /\
+  1 <= r_bases e <= r_bytes e /\
+  r_start e + r_len e / r_bases e * r_bytes e <= off + n + 2.
 Proof.
   intros Hwf Hoff. destruct (wf_rec_parts _ _ Hwf) as (Hne & Hn & Hd & Hf & Hl & Hlb & Hbl).
   pose proof (full_widths _ _ Hf) as Hw.
@@ -48,10 +50,19 @@ Proof.
   assert (Hn0 : 0 <= Z.of_nat (length (s_full r))) by lia.
   unfold width, first_line in *.
   destruct (s_full r) as [|l0 fl] eqn:Efull.
-  - cbn [length Z.of_nat] in *. rewrite Hsp. destruct nl; lia.
+  - cbn [length Z.of_nat] in *.
+    replace (0 * zlen (s_last r) + zlen (s_last r)) with (zlen (s_last r)) by lia.
+    rewrite Z_div_same_full by lia. rewrite Hsp. destruct nl; lia.
   - assert (1 <= Z.of_nat (length (l0 :: fl))) by (cbn [length]; lia).
     set (k := Z.of_nat (length (l0 :: fl))) in *.
-    assert (0 <= zlen sp) by apply zlen_nonneg. nia.
+    assert (0 <= zlen sp) by apply zlen_nonneg.
+    assert (Htl : zlen (term (s_crlf r)) <= 2) by (destruct (s_crlf r); cbv; congruence).
+    rewrite Z.div_add_l by lia.
+    assert (Hq : zlen (s_last r) / zlen l0 = 0 /\ zlen (s_last r) < zlen l0 \/ zlen (s_last r) / zlen l0 = 1 /\ zlen (s_last r) = zlen l0).
+    { destruct (Z.eq_dec (zlen (s_last r)) (zlen l0)) as [E|E].
+      - right. split; [rewrite E; apply Z_div_same_full; lia|assumption].
+      - left. split; [apply Z.div_small; lia|lia]. }
+    destruct Hq as [[-> Hlt]|[-> Heq]]; nia.
 Qed.
 
 Lemma entries_props rs : forall fin off,
@@ -61,7 +72,9 @@ Lemma entries_props rs : forall fin off,
                    0 <= r_len e <= off + zlen (render_recs fin rs) /\
                    r_start e <= off + zlen (render_recs fin rs) /\
                    0 <= r_bases e <= off + zlen (render_recs fin rs) /\
-                   0 <= r_bytes e <= off + zlen (render_recs fin rs)) (entries fin off rs).
+                   0 <= r_bytes e <= off + zlen (render_recs fin rs) /\
+                   1 <= r_bases e <= r_bytes e /\
+                   r_start e + r_len e / r_bases e * r_bytes e <= off + zlen (render_recs fin rs) + 2) (entries fin off rs).
 Proof.
   induction rs as [|r t IH]; intros fin off Hwf Hoff.
   - split; [reflexivity|constructor].
@@ -112,8 +125,26 @@ Proof.
   rewrite (H x HP1 HQ1), IH by assumption. reflexivity.
 Qed.
 
+Lemma geometry_ok_intro r :
+  0 <= r_len r -> 0 <= r_start r -> 1 <= r_bases r <= r_bytes r ->
+  r_start r + r_len r / r_bases r * r_bytes r + r_bases r <= 2 ^ 63 - 1 ->
+  geometry_ok r = true.
+Proof.
+  intros HL HS HB Hroom. unfold geometry_ok.
+  pose proof (Z.div_pos (r_len r) (r_bases r) HL ltac:(lia)) as Hq0.
+  assert (Hprod : 0 <= r_len r / r_bases r * r_bytes r) by nia.
+  destruct (Z.ltb_spec (r_len r) 0); [lia|]. destruct (Z.ltb_spec (r_start r) 0); [lia|].
+  destruct (Z.ltb_spec (r_bases r) 0); [lia|]. destruct (Z.eqb_spec (r_bases r) 0); [lia|].
+  cbn [orb andb negb]. destruct (Z.ltb_spec (r_bytes r) (r_bases r)); [lia|].
+  cbv zeta. destruct (Z.ltb_spec (2 ^ 63 - 1 - r_bases r) (r_start r)); [lia|]. cbn [orb].
+  rewrite !Z.quot_div_nonneg by lia.
+  destruct (Z.ltb_spec ((2 ^ 63 - 1 - r_bases r - r_start r) / r_bytes r) (r_len r / r_bases r)) as [Hlt|]; [|reflexivity].
+  exfalso. assert (r_len r / r_bases r <= (2 ^ 63 - 1 - r_bases r - r_start r) / r_bytes r); [|lia].
+  apply Z.div_le_lower_bound; lia.
+Qed.
+
 Theorem tsv_roundtrip_index f :
-  wf f = true -> no_quote f = true -> zlen (render f) < 2 ^ 63 ->
+  wf f = true -> no_quote f = true -> 2 * zlen (render f) + 2 < 2 ^ 63 ->
   readfrom (writeto (index_of f)) = Ok (index_of f).
 Proof.
   intros Hwf Hq Hsize. pose proof Hwf as Hwf'. unfold wf in Hwf'. bprop.
@@ -133,6 +164,7 @@ Proof.
       exact (forallb_and _ _ _ _ namech_plain (Hnames r Hin) (Hq r Hin)). }
     apply Forall_forall. intros e He.
     rewrite Forall_forall in Hall, Hplain. specialize (Hall e He). specialize (Hplain e He).
-    unfold good_rec, int64. split; [assumption|]. lia.
+    unfold good_rec, int64. split; [assumption|].
+    repeat (split; [lia|]). apply geometry_ok_intro; lia.
   - rewrite Hrt. rewrite sort_sorted by assumption. reflexivity.
 Qed.
